@@ -42,11 +42,16 @@ func decoyOf(r *simrt.Rand, c *Call) *Call {
 	var opts []func()
 	for i := range d.Ints {
 		i := i
-		opts = append(opts, func() { d.Ints[i] += []int64{-2, -1, 1, 2}[r.Intn(4)] })
+		opts = append(opts, func() { d.Ints[i] += []int64{-2, -1, -1, 1}[r.Intn(4)] })
 	}
 	for i := range d.Flts {
 		i := i
-		opts = append(opts, func() { d.Flts[i] *= []float64{0, 0.5, 2}[r.Intn(3)] })
+		if d.Op == "corridor" {
+			// radii: also sub-millimetre ones, below any rounding a cache key might apply
+			opts = append(opts, func() { d.Flts[i] = []float64{0, d.Flts[i] * 0.5, d.Flts[i] + 0.0003, 0.0004}[r.Intn(4)] })
+		} else {
+			opts = append(opts, func() { d.Flts[i] *= 0.5 })
+		}
 	}
 	for i := range d.Bools {
 		i := i
@@ -84,14 +89,40 @@ func decoyOf(r *simrt.Rand, c *Call) *Call {
 	if len(d.QVs) > 0 {
 		opts = append(opts, func() { j := r.Intn(len(d.QVs)); d.QVs[j].VIndex++ }, func() { j := r.Intn(len(d.QVs)); d.QVs[j].Quadkey ^= 1 })
 	}
-	if len(d.Pts) > 0 {
-		opts = append(opts, func() { j := r.Intn(len(d.Pts)); d.Pts[j][2] += 7.5 }, func() { j := r.Intn(len(d.Pts)); d.Pts[j][0] = clamp(d.Pts[j][0]+0.0003, -179.99, 179.99) })
+	if len(d.Pts) > 0 && len(d.Ints) > 0 {
+		// nudge a point by less than one voxel (a fixed offset would be tens of thousands of
+		// voxels at fine zooms)
+		hz, vz := d.Ints[0], d.Ints[len(d.Ints)-1]
+		if hz >= 0 && hz <= 35 && vz >= 0 && vz <= 35 {
+			dl := 0.7 * 360 / float64(pow2(hz))
+			da := 0.7 * float64(pow2(25)) / float64(pow2(vz))
+			opts = append(opts, func() { j := r.Intn(len(d.Pts)); d.Pts[j][2] += da }, func() { j := r.Intn(len(d.Pts)); d.Pts[j][0] = clamp(d.Pts[j][0]+dl, -179.99, 179.99) })
+		}
 	}
 	if len(opts) == 0 {
 		return nil
 	}
 	opts[r.Intn(len(opts))]()
+	if !decoyAffordable(d) {
+		return nil
+	}
 	return d
+}
+
+// decoyAffordable rejects nudged calls that are known not to terminate or to explode: the
+// layer fit of the corridor does not terminate once the clearance exceeds the distance to the
+// far side of a coarse grid.
+func decoyAffordable(c *Call) bool {
+	if c.Op == "corridor" && len(c.Ints) >= 2 && len(c.Flts) >= 1 {
+		hz := c.Ints[0]
+		if hz >= 0 && hz < 2 {
+			return false
+		}
+		if hz >= 2 && hz < 8 && c.Flts[0] > 0.4*voxelWidthM(hz, 60) {
+			return false
+		}
+	}
+	return true
 }
 
 func joinSlash(p []string) string {
@@ -106,13 +137,19 @@ func joinSlash(p []string) string {
 }
 
 // execDecoy runs an intervening call; its result is irrelevant.
+var decoysCutShort int64
+
 func execDecoy(c *Call) {
 	if c == nil {
 		return
 	}
 	if spec := opByName[c.Op]; spec != nil {
-		// an intervening call only has to touch the library's state: a small step budget
-		execRunBudget(spec, c, simrt.NewAscOrder(), 1_500_000)
+		// full step budget: unwinding an intervening call in the middle of the library would not
+		// be a legal perturbation (it could leave a lock held); cost is bounded by only nudging
+		// towards cheaper arguments and by skipping intervening calls in expensive cases
+		if o := execRun(spec, c, simrt.NewAscOrder()); o.aborted {
+			decoysCutShort++
+		}
 	}
 }
 
@@ -378,7 +415,7 @@ func (w *Worker) runC16Case(idx int64) {
 	for k := 1; k <= K; k++ {
 		pert, lidx := drawPerturbation(g.R, spec, base)
 		var decoy *Call
-		if g.R.Chance(1, 3) {
+		if g.R.Chance(1, 3) && ref.steps < 200_000 {
 			if decoy = decoyOf(g.R, base); decoy != nil {
 				execDecoy(decoy)
 				w.St.Evaluations++
@@ -435,6 +472,10 @@ func (w *Worker) runC16Case(idx int64) {
 			w.St.Samples = append(w.St.Samples, map[string]any{"case": idx, "base_call": base, "perturbation": pert, "list_index_maps": lidx,
 				"seam_decisions": head2(order.Decisions, 8), "seam_visits": order.Visits, "result_elements": len(run.canon), "equal_to_reference": sameOutcome(&ref, &run)})
 		}
+	}
+	if decoysCutShort > 0 {
+		w.St.Probes["intervening_calls_cut_short_by_step_budget"] += decoysCutShort
+		decoysCutShort = 0
 	}
 	w.recordCase(idx, caseHash)
 }
